@@ -283,6 +283,13 @@ class Arg:
         self.resolved = []
         self.fault = op.get('fault') or {}
         self.fired = False
+        self.extras = []          # [name, object, canon before the call]
+
+    def track(self, name, obj):
+        """Register an argument built for this call only (option dict, mask
+        array, origin, header ...): it must be unchanged after the call."""
+        self.extras.append([name, obj, canon(obj)])
+        return obj
 
     def slot(self, kinds, pred=None):
         ex = self.ex
@@ -420,7 +427,16 @@ class Exec:
             fired = a.fired
         elif k == 'warn_error':
             fired = out[0] == 'raise' and 'Warning' in out[1]
+        changed = []
+        for nm, obj, c0 in a.extras:
+            try:
+                c1 = canon(obj)
+            except Exception as exc:      # the object was left unusable
+                c1 = ['unreadable', type(exc).__name__]
+            if c1 != c0:
+                changed.append(f'{nm}: {diff(c0, c1)}')
         rec = {'op': name, 'desc': desc, 'resolved': a.resolved,
+               'extras_changed': changed,
                'outcome': out[:1] + ([out[1], out[2]] if out[0] != 'ok'
                                      else []),
                'digest': fpc([out, wrec]), 'warnings': len(wrec),
@@ -503,6 +519,7 @@ class Exec:
             a.fired = True
             img = a.rng.pick([np.arange(10.0), np.zeros((2, 3, 4)), None])
             shape = a.rng.pick([(5,), (2, 3, 4), 'x'])
+        a.track('image', img)
         if v == 'to_image':
             fn = lambda: mask.to_image(shape)  # noqa
         elif v == 'cutout':
@@ -516,6 +533,7 @@ class Exec:
         elif v == 'get_values_mask':
             m = (np.arange(np.size(img)).reshape(np.shape(img)) % 3 == 0) \
                 if hasattr(img, 'shape') else None
+            a.track('mask=', m)
             fn = lambda: mask.get_values(img, mask=m)  # noqa
         elif v == 'slices':
             fn = lambda: mask.get_overlap_slices(shape)  # noqa
@@ -596,6 +614,7 @@ class Exec:
             which = a.rng.pick(['meta', 'visual'])
             return (lambda: getattr(reg, which).copy()), \
                 f'{_n(reg)}.{which}.copy()', None
+        a.track('changes', kw)
         how = a.rng.pick(['copy', 'copy', 'deepcopy'])
         if how == 'deepcopy':
             return (lambda: copy.deepcopy(reg)), f'deepcopy({_n(reg)})', None
@@ -620,6 +639,9 @@ class Exec:
         if a.bad():
             a.fired = True
             kw = a.rng.pick([{'nosuchkw': 1}, {'lw': 'x'}])
+        kw = a.track('artist kwargs', dict(kw))
+        origin = a.track('origin', origin if a.rng.chance(0.5)
+                         else np.array(origin, dtype=float))
         return (lambda: reg.as_artist(origin=origin, **kw)), \
             f'{_n(reg)}.as_artist({origin},{kw})', None
 
@@ -722,7 +744,7 @@ class Exec:
     def op_serialize(self, a):
         target = a.slot(REG + ('regions',))
         fmt = a.rng.pick(['ds9', 'ds9', 'crtf', 'fits'])
-        kw = self._ser_kwargs(a, fmt, target)
+        kw = a.track('options', self._ser_kwargs(a, fmt, target))
         f = fmt
         if a.bad() and a.rng.chance(0.3):
             f = a.rng.pick([None, 'DS9', 'bogus'])
@@ -791,6 +813,10 @@ class Exec:
             wkw['format'] = fmt
         if over is not None:
             wkw['overwrite'] = over
+        if fmt == 'fits' and a.rng.chance(0.3):
+            wkw['header'] = {'EXTNAME': 'REGION', 'OBSERVER': 'verif',
+                             'NUMBER': 7}
+        a.track('options', wkw)
 
         def fn():
             target.write(path, **wkw)
@@ -921,6 +947,13 @@ class Exec:
                     states.add(('pair', prev, name))
                 prev = name
                 # I1: arguments + a seeded third of the rest + the disk
+                if rec.get('extras_changed'):
+                    self.violation(
+                        'I1-mutation', j, rec,
+                        f'after {rec["desc"]} (outcome {rec["outcome"]}) an '
+                        f'argument built for this call changed: '
+                        + '; '.join(rec['extras_changed'])[:400],
+                        cls='argument')
                 check = set(rec['resolved'])
                 for i in range(len(self.pool)):
                     if sel.random() < 0.34:
